@@ -167,7 +167,10 @@ Section Fragment.
             match last with Some li => ok_ctx caught news li | None => true end
         | IPar (INext _ n) b | IPar b (INext _ n) =>
             String.eqb (v_name n) (v_name iter) && ok_ctx false news b &&
-            match last with Some li => ok_ctx false news li | None => true end
+            match last with                    (* the last instruction runs inside the `next` branch of the final par *)
+            | Some li => ok_ctx false news li && disjoint (binders b) (uses li) && disjoint (binders li) (uses b)
+            | None => true
+            end
         | _ => false
         end
     | _ => false             (* in particular a `next` anywhere else *)
